@@ -101,6 +101,12 @@ Definition slot {T} (ring : list T) (c : N) : outcome T :=
 Definition consecutive (c : N) (j : nat) : list N :=
   map (fun k => N.modulo (c + N.of_nat k) two64) (seq 0 j).
 
+(* the same [j] picks read off the ring directly: start at c mod len and walk round
+   (equal to [map (slot ring) (consecutive c j)] while the cursor does not wrap) *)
+Definition window {T} (ring : list T) (c : N) (j : nat) : list T :=
+  let len := length ring in
+  firstn j (skipn (N.to_nat (N.modulo c (N.of_nat len))) (concat (repeat ring (Nat.div j len + 2)))).
+
 Fixpoint count_nat (x : nat) (l : list nat) : nat :=
   match l with [] => O | y :: r => (if Nat.eqb x y then 1 else 0) + count_nat x r end.
 
@@ -111,15 +117,26 @@ Definition positions (len : nat) (cs : list N) : list nat :=
 (* ---------------------------------------------------------------- redirect URL on the shared target *)
 (* Table.Lookup, for a target with RedirectCode != 0, calls target.BuildRedirectURL(req.URL):
        t.RedirectURL = &url.URL{... template ...}                         [DAlloc]
-       ... t.RedirectURL.Path = strings.Replace(t.RedirectURL.Path, "$path", reqPath, 1) ...   [DFill]
+       t.RedirectURL.Path = strings.Replace(t.RedirectURL.Path, "/$path", "$path", 1)          [DStrip]
+       t.RedirectURL.Path = strings.Replace(t.RedirectURL.Path, "$path", reqPath, 1)           [DFill]
+       t.RedirectURL.Host = strings.Replace(t.RedirectURL.Host, "$host", requestURL.Host, 1)   [DHost]
    (every access goes through the field of the shared *Target), and HTTPProxy.ServeHTTP later does
        http.Redirect(w, r, t.RedirectURL.String(), t.RedirectCode)       [DRead]
    The URL text is a list of pieces; the hole is "$path".  BuildRedirectURL reads the field several
-   times while filling (Path, RawPath, RawQuery): the model takes the fill as one action, so the real
+   times within each of these statements (Path, RawPath, RawQuery): the model takes each as one action, so the real
    code has MORE interleavings than the model, never fewer. *)
-Inductive piece := Lit (s : str) | Hole.
+Inductive piece := Lit (s : str) | Slash | Hole | HHole.   (* Slash: the "/" written before "$path" in the route; HHole: "$host" *)
 Definition uobj := list piece.
 
+(* strings.Replace(.., "/$path", "$path", 1), guarded by strings.Contains *)
+Fixpoint strip (o : uobj) : uobj :=
+  match o with
+  | [] => []
+  | Slash :: ((Hole :: _) as r) => r
+  | x :: r => x :: strip r
+  end.
+
+(* strings.Replace(.., "$path", p, 1), guarded by strings.Contains *)
 Fixpoint fill (o : uobj) (p : str) : uobj :=
   match o with
   | [] => []
@@ -127,45 +144,62 @@ Fixpoint fill (o : uobj) (p : str) : uobj :=
   | x :: r => x :: fill r p
   end.
 
+(* strings.Replace(.., "$host", requestURL.Host, 1), guarded by strings.Contains *)
+Fixpoint fill_host (o : uobj) (h : str) : uobj :=
+  match o with
+  | [] => []
+  | HHole :: r => Lit h :: r
+  | x :: r => x :: fill_host r h
+  end.
+
+Definition dollar_host : str := [36; 104; 111; 115; 116]%N.
 Definition dollar_path : str := [36; 112; 97; 116; 104]%N.
 Fixpoint render (o : uobj) : str :=
   match o with
   | [] => []
   | Lit s :: r => s ++ render r
+  | Slash :: r => 47%N :: render r
   | Hole :: r => dollar_path ++ render r
+  | HHole :: r => dollar_host ++ render r
   end.
 
 Record rd_shared := { rd_heap : list uobj; rd_ptr : option nat }.   (* the URL objects; Target.RedirectURL *)
-Inductive rd_pc := DAlloc | DFill | DRead | DDone.
-Record rd_local := { rd_at : rd_pc; rd_path : str; rd_got : option (outcome str) }.
-Definition rd_init (path : str) : rd_local := {| rd_at := DAlloc; rd_path := path; rd_got := None |}.
+Inductive rd_pc := DAlloc | DStrip | DFill | DHost | DRead | DDone.
+Record rd_local := { rd_at : rd_pc; rd_path : str; rd_host : str; rd_got : option (outcome str) }.
+Definition rd_init (path host : str) : rd_local := {| rd_at := DAlloc; rd_path := path; rd_host := host; rd_got := None |}.
+Definition rd_goto (l : rd_local) (pc : rd_pc) : rd_local := {| rd_at := pc; rd_path := rd_path l; rd_host := rd_host l; rd_got := None |}.
+Definition rd_ret (l : rd_local) (r : outcome str) : rd_local := {| rd_at := DDone; rd_path := rd_path l; rd_host := rd_host l; rd_got := Some r |}.
+
+(* apply [f] to the object the shared field points to NOW (nil / dangling: panic) *)
+Definition rd_modify (f : uobj -> uobj) (s : rd_shared) (l : rd_local) (next : rd_pc) : rd_shared * rd_local :=
+  match rd_ptr s with
+  | Some a => match nth_error (rd_heap s) a with
+              | Some o => ({| rd_heap := upd (rd_heap s) a (f o); rd_ptr := rd_ptr s |}, rd_goto l next)
+              | None => (s, rd_ret l Panic)
+              end
+  | None => (s, rd_ret l Panic)
+  end.
 
 Definition rd_step (tmpl : uobj) (s : rd_shared) (l : rd_local) : rd_shared * rd_local :=
   match rd_at l with
-  | DAlloc => ({| rd_heap := rd_heap s ++ [tmpl]; rd_ptr := Some (length (rd_heap s)) |},
-               {| rd_at := DFill; rd_path := rd_path l; rd_got := None |})
-  | DFill => match rd_ptr s with
-             | Some a => match nth_error (rd_heap s) a with
-                         | Some o => ({| rd_heap := upd (rd_heap s) a (fill o (rd_path l)); rd_ptr := rd_ptr s |},
-                                      {| rd_at := DRead; rd_path := rd_path l; rd_got := None |})
-                         | None => (s, {| rd_at := DDone; rd_path := rd_path l; rd_got := Some Panic |})
-                         end
-             | None => (s, {| rd_at := DDone; rd_path := rd_path l; rd_got := Some Panic |})   (* nil dereference *)
-             end
+  | DAlloc => ({| rd_heap := rd_heap s ++ [tmpl]; rd_ptr := Some (length (rd_heap s)) |}, rd_goto l DStrip)
+  | DStrip => rd_modify strip s l DFill
+  | DFill => rd_modify (fun o => fill o (rd_path l)) s l DHost
+  | DHost => rd_modify (fun o => fill_host o (rd_host l)) s l DRead
   | DRead => match rd_ptr s with
              | Some a => match nth_error (rd_heap s) a with
-                         | Some o => (s, {| rd_at := DDone; rd_path := rd_path l; rd_got := Some (Ok (render o)) |})
-                         | None => (s, {| rd_at := DDone; rd_path := rd_path l; rd_got := Some Panic |})
+                         | Some o => (s, rd_ret l (Ok (render o)))
+                         | None => (s, rd_ret l Panic)
                          end
              (* t.RedirectURL == nil: ServeHTTP falls through to proxying; not reachable after a lookup *)
-             | None => (s, {| rd_at := DDone; rd_path := rd_path l; rd_got := Some (Err 0) |})
+             | None => (s, rd_ret l (Err 0))
              end
   | DDone => (s, l)
   end.
 
 Definition rd_start : rd_shared := {| rd_heap := []; rd_ptr := None |}.
 (* what the request with path [p] must be answered with *)
-Definition rd_own (tmpl : uobj) (p : str) : str := render (fill tmpl p).
+Definition rd_own (tmpl : uobj) (p h : str) : str := render (fill_host (fill (strip tmpl) p) h).
 Definition rd_results (ts : list rd_local) : list (option (outcome str)) := map rd_got ts.
 
 (* ---------------------------------------------------------------- a lookup with its shared effects explicit *)
@@ -203,7 +237,7 @@ Definition pick_target (r : route) (cursor : N) : outcome nat :=
 Definition eq_rid (a b : rid) : bool := Nat.eqb (fst a) (fst b) && Nat.eqb (snd a) (snd b).
 
 (* the sequential lookup: result and new shared state *)
-Definition lookup (hosts : list (list route)) (path : str) (s : lk_shared) : outcome (option lk_result) * lk_shared :=
+Definition lookup (hosts : list (list route)) (path host : str) (s : lk_shared) : outcome (option lk_result) * lk_shared :=
   match find_host path hosts 0 with
   | None => (Ok None, s)
   | Some (id, r) =>
@@ -211,7 +245,7 @@ Definition lookup (hosts : list (list route)) (path : str) (s : lk_shared) : out
       | Ok t =>
           let cur' := if Nat.eqb (r_ntargets r) 1 then lk_cursor s
                       else fun x => if eq_rid x id then N.modulo (lk_cursor s id + 1) two64 else lk_cursor s x in
-          let loc := match r_redirect r with Some tm => Some (rd_own tm path) | None => None end in
+          let loc := match r_redirect r with Some tm => Some (rd_own tm path host) | None => None end in
           let red' := match loc with
                       | Some u => fun x => if Nat.eqb x t then Some u else lk_redirect s x
                       | None => lk_redirect s
@@ -224,13 +258,13 @@ Definition lookup (hosts : list (list route)) (path : str) (s : lk_shared) : out
   end.
 
 (* the same with the shared effects removed: the caller supplies the one cursor value *)
-Definition lookup_pure (hosts : list (list route)) (path : str) (cursor_of : rid -> N) : outcome (option lk_result) :=
+Definition lookup_pure (hosts : list (list route)) (path host : str) (cursor_of : rid -> N) : outcome (option lk_result) :=
   match find_host path hosts 0 with
   | None => Ok None
   | Some (id, r) =>
       match pick_target r (cursor_of id) with
       | Ok t => Ok (Some {| lk_route := id; lk_target := t;
-                            lk_location := match r_redirect r with Some tm => Some (rd_own tm path) | None => None end |})
+                            lk_location := match r_redirect r with Some tm => Some (rd_own tm path host) | None => None end |})
       | Err k => Err k
       | Panic => Panic
       end
